@@ -267,6 +267,16 @@ class Interp:
         if v is UNINIT:
             s.report("uninitialised-use", what, ins); return s.fresh_real("undef")
         return v
+    def bitop(s, op, A, B, bits):
+        """bitwise or / xor / and of symbolic machine words kept as mathematical integers (signed reading).  The packing idiom (x << k) | y with
+        0 <= y < 2^k (decided by the solver on the current path) is addition; anything else goes through bit-vectors of the operand width."""
+        if op in ("or", "xor"):
+            for X, Y in ((A, B), (B, A)):
+                for k in (16, 8, 24, 32, 1, 2, 4):
+                    if k >= bits: continue
+                    if not s.ex.feasible([z3.Not(z3.And(Y >= 0, Y < (1 << k), X % (1 << k) == 0))]): return X + Y
+        f = {"or": lambda x, y: x | y, "xor": lambda x, y: x ^ y, "and": lambda x, y: x & y}[op]
+        return z3.BV2Int(f(z3.Int2BV(A, bits), z3.Int2BV(B, bits)), is_signed=True)
     def ibin(s, op, a, b, bits, flags, ins):
         a = s.use(a, ins); b = s.use(b, ins)
         if is_sym(a) or is_sym(b):
@@ -282,6 +292,7 @@ class Interp:
             elif op == "udiv" and not is_sym(b) and b > 0: r = s.uns(A, bits) / b
             elif op == "urem" and not is_sym(b) and b > 0: r = s.uns(A, bits) % b
             elif op == "and" and not is_sym(b) and b >= 0 and (b & (b + 1)) == 0: r = s.uns(A, bits) % (b + 1)
+            elif op in ("or", "xor", "and"): r = s.bitop(op, A, B, bits)
             else: raise NotImplementedError(op + " symbolic")
             lim = 1 << (bits - 1)
             if "nsw" in flags:
